@@ -73,7 +73,7 @@ def main():
     import subprocess
     import tempfile
     from concurrent.futures import ThreadPoolExecutor
-    unit_timeout = int(os.environ.get('PYVC_UNIT_TIMEOUT_S', '900' if tier == 'quick' else '7200'))
+    unit_timeout = int(os.environ.get('PYVC_UNIT_TIMEOUT_S', '600' if tier == 'quick' else '7200'))
     tmpdir = tempfile.mkdtemp(prefix='pyvc_units_', dir='/var/tmp')
     known_path = os.path.join(tmpdir, 'known.json')
     with open(known_path, 'w') as f:
@@ -110,7 +110,7 @@ def main():
         n += sum(1 for o in r.get('lemmas', []) if o.get('status') == 'undecided')
         return n
     for k, (u, r) in enumerate(zip(units, results)):
-        if 'crash' not in r and n_undecided(r) > 0 and not r.get('bounded'):
+        if 'crash' not in r and n_undecided(r) > 0 and not r.get('bounded') and 'timed out' not in str(r.get('undecided_unit', '')):
             r2 = run_one(u, budget_factor=3)
             if 'crash' not in r2 and n_undecided(r2) < n_undecided(r):
                 r2['second_chance'] = True
